@@ -50,6 +50,10 @@ def namesUnder (selName : Name) (walked : List (List String)) : List Name :=
   selName :: walked.map fun p =>
     selName ++ (p.dropLast ++ [match p.getLast? with | some f => String.mk (f.toList.take (f.length - 3)) | none => ""])
 
+/-- … and the names of the regular sub-packages below it (`package_modpaths(..., with_pkg=True)`, repair of F-C09b) -/
+def namesToProfile (selName : Name) (walkedFiles walkedPkgs : List (List String)) : List Name :=
+  namesUnder selName walkedFiles ++ walkedPkgs.map fun p => selName ++ p
+
 /-! ## run-time registration -/
 
 inductive Member | func (id : Nat) | staticm (id : Nat) | classm (id : Nat) | prop (id : Nat) | other
